@@ -216,8 +216,13 @@ func (x *hkdfModel) read(n int, nilBuf bool) bool {
 func TestC18(t *testing.T) {
 	m := mon.New(t, "C18")
 	defer m.Done()
-	m.Rule("pbkdf2 cases: hash in {SHA-1, SHA-256, SHA-512} (by index), password/salt 0..~200 bytes incl. empty, exactly one HMAC block and longer than a block, iter 1..50, keyLen from {1, HashLen-1, HashLen, HashLen+1, 2·HashLen, 2·HashLen+1, 200} or random 1..200; output compared with the RFC 8018 reference (h/ref/kdfref, own HMAC) and, every 4th case, python hashlib.pbkdf2_hmac. hkdf histories: hash by index, secret/salt/info nil, empty, block-sized, over-block and random; Extract compared with the reference; two readers (hkdf.New and hkdf.Expand over hkdf.Extract's PRK) are driven in interleaved fashion through a read-size history of one of 6 shapes fixed by index (small reads then landing at limit−{0,1,2,HashLen∓1}; one read of exactly the limit; one read of limit+1 then the full limit; sum to limit−1 then 2,1,1,0; HashLen±1 reads across all 255 blocks; log-uniform sizes past the limit with retries), zero-length reads (empty and nil slices) sprinkled in; model state = bytes consumed c: a Read(n) with c+n ≤ 255·HashLen must return the reference bytes ref[c:c+n] with nil error, a Read that exceeds the rest must report an error (any bytes it still returns must be the next reference bytes and are counted as consumed; an io.Reader-style short read without error is tolerated but a full or empty read without error is not), nothing beyond 255·HashLen is ever returned, Read(0) returns (0,nil). All input slices are guarded copies (exact or spare capacity with a sentinel) that must be unchanged after the calls and after the read history; the last 8 PBKDF2 keys and PRKs are kept and re-verified after later calls. distinct = (hash, history shape, input shapes)")
+	m.Rule("pbkdf2 cases: hash in {SHA-1, SHA-256, SHA-512} (by index), password/salt 0..~200 bytes incl. empty, exactly one HMAC block and longer than a block, iter 1..50, keyLen from {1, HashLen-1, HashLen, HashLen+1, 2·HashLen, 2·HashLen+1, 200} or random 1..200; output compared with the RFC 8018 reference (h/ref/kdfref, own HMAC) and, every 4th case, python hashlib.pbkdf2_hmac. hkdf histories: hash by index, secret/salt/info nil, empty, block-sized, over-block and random; Extract compared with the reference; two readers (hkdf.New and hkdf.Expand over hkdf.Extract's PRK) are driven in interleaved fashion through a read-size history of one of 6 shapes fixed by index (small reads then landing at limit−{0,1,2,HashLen∓1}; one read of exactly the limit; one read of limit+1 then the full limit; sum to limit−1 then 2,1,1,0; HashLen±1 reads across all 255 blocks; log-uniform sizes past the limit with retries), zero-length reads (empty and nil slices) sprinkled in; model state = bytes consumed c: a Read(n) with c+n ≤ 255·HashLen must return the reference bytes ref[c:c+n] with nil error, a Read that exceeds the rest must report an error (any bytes it still returns must be the next reference bytes and are counted as consumed; an io.Reader-style short read without error is tolerated but a full or empty read without error is not), nothing beyond 255·HashLen is ever returned, Read(0) returns (0,nil). All input slices are guarded copies (exact or spare capacity with a sentinel) that must be unchanged after the calls and after the read history; the last 8 PBKDF2 keys and PRKs are kept and re-verified after later calls." + concRule + " distinct = (hash, history shape, input shapes)")
 	m.Assume("h/ref/kdfref (own HMAC per RFC 2104, PBKDF2 per RFC 8018 §5.2, HKDF per RFC 5869 §2) passes the RFC 2202/4231/6070/7914/5869 vectors; SHA-1/SHA-2 compression from the Go standard library is trusted (shared with the code under test), cross-checked by python hashlib (OpenSSL) for PBKDF2 and by `openssl kdf HKDF` for a sample of full HKDF streams")
+	if mon.RaceBuild {
+		// race variant: only the shared-value concurrency streams (the race detector costs 5-15x)
+		concGates(m, c18Concurrent(m), true)
+		return
+	}
 	py, pyErr := ext.StartPy()
 	if pyErr != nil {
 		m.Note("python witness unavailable: " + pyErr.Error())
@@ -446,6 +451,7 @@ func TestC18(t *testing.T) {
 			m.Count("hkdf_histories_completed", 1)
 		}
 	})
+	concGates(m, c18Concurrent(m), true)
 	m.Gate("input_immutability_checks", 2*nP+12*nH, "password/salt/secret/info/PRK slices (guarded copies, with and without spare capacity) compared with their snapshot after the calls and after the whole read history")
 	m.Gate("input_immutability_checks_with_spare_capacity", nP+nH, "of which slices with cap > len whose spare capacity carries a sentinel")
 	m.Gate("retained_outputs_rechecked", nP+nH, "keys/PRKs returned by earlier calls re-verified after later calls")
